@@ -102,7 +102,6 @@ Qed.
 Section Sys.
   Variable sf : str -> str.
   Variable honour : bool.
-  Variable kstr : skey -> str.
 
   Notation sstep := (sstep sf honour).
   Notation srun := (srun sf honour).
@@ -704,6 +703,7 @@ Section Sys.
   Qed.
 
   (** * The boolean specification holds of the model *)
+  Variable kstr : skey -> str.
   Theorem spec_at_holds ops : spec_at sf kstr ops (snap_of kstr (srun ops)) = true.
   Proof.
     unfold spec_at. destruct (disc ops) eqn:Hd; [|reflexivity]. cbn [negb orb].
@@ -752,3 +752,93 @@ Section Sys.
       (destruct (provider_delete_fault ops); [|rewrite (H5 eq_refl)]; reflexivity).
   Qed.
 End Sys.
+
+(** * Every interleaving of the orders' Present; CleanUp programs is a history of the discipline
+      and ends with nothing pending (acmez: client.go solveChallenges, one program per chosen
+      authorization; orders run concurrently) *)
+Inductive merge {A} : list (list A) -> list A -> Prop :=
+| merge_nil ls : Forall (fun l => l = []) ls -> merge ls []
+| merge_step ls1 x l ls2 r : merge (ls1 ++ l :: ls2) r -> merge (ls1 ++ (x :: l) :: ls2) (x :: r).
+
+Definition prog (t : order * faults * faults) : list sop :=
+  let '(o, fp, fc) := t in [SPresent o fp; SClean o fc].
+
+Definition wf_thread (l : list sop) : Prop :=
+  l = [] \/ (exists o fc, l = [SClean o fc]) \/ (exists o fp fc, l = [SPresent o fp; SClean o fc]).
+Definition owes (o : order) (l : list sop) : nat :=
+  match l with [SClean o' _] => if order_eqb o' o then 1 else 0 | _ => 0 end.
+Definition owed (o : order) (ls : list (list sop)) : nat := list_sum (map (owes o) ls).
+Definition cnt (o : order) (p : list pentry) : nat := length (filter (fun e => order_eqb (fst e) o) p).
+
+Lemma owed_mid o ls1 l ls2 : owed o (ls1 ++ l :: ls2) = (owed o ls1 + owes o l + owed o ls2)%nat.
+Proof. unfold owed. rewrite map_app, list_sum_app. cbn [map list_sum fold_right]. unfold list_sum. cbn [fold_right]. lia. Qed.
+
+Lemma cnt_ext o (e e' : pentry) : fst e = fst e' -> order_eqb (fst e) o = order_eqb (fst e') o.
+Proof. intros ->. reflexivity. Qed.
+Lemma cnt_pos_exists o p : (1 <= cnt o p)%nat -> existsb (fun e => order_eqb (fst e) o) p = true.
+Proof.
+  unfold cnt. induction p as [|e p IH]; cbn [filter length existsb]; [lia|].
+  destruct (order_eqb (fst e) o); [reflexivity|]. intros H. cbn [orb]. exact (IH H).
+Qed.
+Lemma cnt_all_zero_nil p : (forall o, cnt o p = 0%nat) -> p = [].
+Proof.
+  destruct p as [|e p]; [reflexivity|]. intros H. specialize (H (fst e)). unfold cnt in H. cbn [filter] in H.
+  rewrite order_eqb_refl in H. cbn in H. lia.
+Qed.
+Lemma order_eqb_sym a b : order_eqb a b = order_eqb b a.
+Proof.
+  destruct (order_eqb a b) eqn:E1, (order_eqb b a) eqn:E2; try reflexivity.
+  - apply order_eqb_spec in E1; subst. rewrite order_eqb_refl in E2; discriminate.
+  - apply order_eqb_spec in E2; subst. rewrite order_eqb_refl in E1; discriminate.
+Qed.
+
+Lemma merge_disciplined ls ops : merge ls ops -> Forall wf_thread ls ->
+  forall p, (forall o, cnt o p = owed o ls) -> disc_from p ops = true /\ fold_left ppstep ops p = [].
+Proof.
+  induction 1 as [ls Hnil|ls1 x l ls2 r Hm IH]; intros Hwf p Hcnt.
+  - split; [reflexivity|]. cbn. apply cnt_all_zero_nil. intros o. rewrite Hcnt. unfold owed.
+    clear -Hnil. induction Hnil as [|l ls Hl _ IH]; [reflexivity|]. subst l. cbn. exact IH.
+  - assert (Hx : wf_thread (x :: l)).
+    { rewrite Forall_forall in Hwf. apply Hwf. apply in_or_app. right. left. reflexivity. }
+    assert (Hwf' : forall l', wf_thread l' -> Forall wf_thread (ls1 ++ l' :: ls2)).
+    { intros l' Hl'. rewrite Forall_forall in *. intros y Hy. apply in_app_or in Hy. destruct Hy as [Hy|[<-|Hy]].
+      - apply Hwf. apply in_or_app. left; exact Hy.
+      - exact Hl'.
+      - apply Hwf. apply in_or_app. right. right. exact Hy. }
+    destruct Hx as [Hx|[(o & fc & Hx)|(o & fp & fc & Hx)]]; [discriminate| |]; injection Hx; intros -> ->.
+    + (* the thread cleans up *)
+      assert (Hex : existsb (fun e => order_eqb (fst e) o) p = true).
+      { apply cnt_pos_exists. rewrite Hcnt, owed_mid. cbn [owes]. rewrite order_eqb_refl. lia. }
+      cbn [disc_from fold_left ppstep]. rewrite Hex. cbn [andb].
+      apply IH; [apply Hwf'; left; reflexivity|].
+      intros o'. pose proof (filter_premove (fun e : pentry => order_eqb (fst e) o') o p (cnt_ext o') Hex fc) as Hfp.
+      cbn [fst] in Hfp. specialize (Hcnt o'). rewrite owed_mid in Hcnt. cbn [owes] in Hcnt.
+      rewrite owed_mid. cbn [owes]. unfold cnt in *. unfold pentry in *.
+      destruct (order_eqb o o'); lia.
+    + (* the thread presents *)
+      cbn [disc_from fold_left ppstep andb].
+      apply IH; [apply Hwf'; right; left; exists o, fc; reflexivity|].
+      intros o'. unfold cnt. cbn [filter fst].
+      rewrite !owed_mid. cbn [owes]. specialize (Hcnt o'). rewrite owed_mid in Hcnt. cbn [owes] in Hcnt.
+      unfold cnt in Hcnt. unfold pentry in *.
+      destruct (order_eqb o o'); cbn [length]; lia.
+Qed.
+
+Theorem all_interleavings_disciplined ts ops : merge (map prog ts) ops -> disc ops = true /\ spending ops = [].
+Proof.
+  intros Hm. apply (merge_disciplined _ _ Hm).
+  - apply Forall_forall. intros l Hl. apply in_map_iff in Hl. destruct Hl as [[[o fp] fc] [<- _]].
+    right. right. exists o, fp, fc. reflexivity.
+  - intros o. cbn. unfold owed. clear. induction ts as [|[[o' fp] fc] ts IH]; [reflexivity|]. cbn. exact IH.
+Qed.
+
+(** whatever the interleaving and the faults, the orders leave the solver state as they found
+    it (token files / provider records: unless a delete itself was made to fail) *)
+Theorem interleavings_leave_nothing sf honour ts ops : merge (map prog ts) ops ->
+  storage_delete_fault ops = false -> provider_delete_fault ops = false ->
+  srun sf honour ops = sinit.
+Proof.
+  intros Hm Hs Hp. destruct (all_interleavings_disciplined ts ops Hm) as [Hd Hq].
+  destruct (quiescent_clean sf honour ops Hd Hq) as (H1 & H2 & H3 & H4 & H5).
+  destruct (srun sf honour ops) as [a b c d e]. cbn in *. rewrite H1, H2, H3, (H4 Hs), (H5 Hp). reflexivity.
+Qed.
